@@ -62,7 +62,7 @@ ShiftEv(t) ==
       want == IF t.route = "inv" THEN Enc(Inverted(op)) ELSE t.c
       kf == IF t.noise # 0 THEN " KF=C11-noise-below-integer" ELSE ""
   IN
-  IF ~(InRange(t.c) /\ t.route \in {"ctor", "add", "sub", "inv"}) THEN "OOD route" ELSE
+  IF ~(InRange(t.c) /\ t.route \in {"ctor", "add", "sub", "inv", "func"}) THEN "OOD route" ELSE
   IF t.exc # "" THEN "REJECT Raised" \o kf ELSE
   IF ~InRange(t.code) THEN "REJECT CodeRange" \o kf ELSE
   IF t.code # want THEN "REJECT ShiftCode" \o kf ELSE
